@@ -136,6 +136,8 @@ def run(ck: Check, repo: Repo) -> None:
                      "tau = self.tau")
     ck.rule("C08.6", "the soft update is not vacuous: the zipped iterables are the live holders of the parameters "
                      "(typestate: a module that received a detached TensorDict via to_module has no parameters())")
+    ck.rule("C08.7", "batch coherence: at every call of a loss helper the observation, action, reward, next observation and done flag "
+                     "handed over come from one and the same sampled batch, each in its own slot")
     n_loss = 0
     n_soft = 0
     for modname, cname in VALUE_BASED:
@@ -146,6 +148,8 @@ def run(ck: Check, repo: Repo) -> None:
         else:
             n_loss += _criterion_targets(ck, repo, reg)
         n_soft += _soft_update(ck, repo, reg)
+        _batch_coherence(ck, repo, reg)
+        _hook_reinstalls(ck, repo, reg)
     ck.floor("C08.1", n_loss, 9, "loss-target sites over 7 value-based learners")
     ck.floor("C08.5", n_soft, 7, "soft-update functions")
 
@@ -348,11 +352,16 @@ def _paramless_modules(repo: Repo, cls: Cls) -> Dict[str, Tuple[str, Optional[st
     out: Dict[str, Tuple[str, Optional[str], Optional[str]]] = {}
     for m in cls.methods.values():
         stores = {}
-        for n in walk_no_nested(m.node):
+        for n in sorted((x for x in walk_no_nested(m.node) if isinstance(x, (ast.Assign, ast.AnnAssign))), key=lambda x: x.lineno):
             if isinstance(n, ast.Assign) and len(n.targets) == 1:
-                stores[dotted(n.targets[0])] = n.value
+                k, v = dotted(n.targets[0]), n.value
             elif isinstance(n, ast.AnnAssign) and n.value is not None:
-                stores[dotted(n.target)] = n.value
+                k, v = dotted(n.target), n.value
+            else:
+                continue
+            # prefer the definition that derives from from_module / clone of one (the installing chain)
+            if k not in stores or "from_module" in ast.unparse(v) or ".clone()" in ast.unparse(v):
+                stores[k] = v
         for c in calls_in(m.node):
             if last_attr(c) == "to_module" and c.args and dotted(c.args[0]).startswith("self."):
                 mod = dotted(c.args[0])[5:]
@@ -657,3 +666,115 @@ VARIANTS = [
     ("rainbow-eval-dist", _R, "target_q_dist = self.actor_target(next_states, q=False)", "target_q_dist = self.actor(next_states, q=False)", "fire", "C08.1"),
     ("rainbow-soft-update-before-step", _R, "        # soft update target network\n        self.soft_update()\n        self.actor.reset_noise()", "        self.actor.reset_noise()", "fire", "C08.4"),
 ]
+
+
+# ------------------------------------------------------------------------------------------------ C08.7
+def _batch_root(tb: TermBuilder, p: Poly) -> Set[str]:
+    """Names of the function parameters (batches) a term is read from."""
+    out = set()
+    for a, _, _ in walk_atoms(tb, p):
+        if a.kind == "param":
+            out.add(a.name)
+    return out
+
+
+def _batch_coherence(ck: Check, repo: Repo, reg: AlgoRegistry) -> None:
+    cls = reg.cls
+    learn = cls.methods.get("learn")
+    if learn is None:
+        return
+    tb = TermBuilder(repo, learn)
+    helpers = {m.name for m in cls.methods.values() if m.name in ("update", "_dqn_loss", "_learn_individual", "learn_individual")}
+    for c in calls_in(learn.node):
+        d = call_name(c)
+        if not (d.startswith("self.") and d[5:] in helpers):
+            continue
+        n = tb.cfg.node_of(c)
+        if n is None:
+            continue
+        roles = []
+        roots = []
+        for a in list(c.args) + [k.value for k in c.keywords]:
+            t = tb.term(a, n)
+            r = tb.roles(t)
+            if r:
+                roles.append((short(a, 30), sorted(r)))
+                roots.append((short(a, 30), sorted(_batch_root(tb, t))))
+        single = [x for x in roles if len(x[1]) == 1]
+        seen = [x[1][0] for x in single]
+        ck.ob("C08.7", learn, c, seen.count("reward") == 1 and seen.count("done") == 1,
+              f"{cls.name}: reward and done flag are each handed to {d[5:]}() exactly once", detail=f"roles by argument: {roles}")
+        rs = {tuple(x[1]) for x in roots if x[1]}
+        ck.ob("C08.7", learn, c, len(rs) == 1, f"{cls.name}: all experience arguments of this {d[5:]}() call are read from the same batch",
+              detail=f"batch objects by argument: {roots}")
+        # positional agreement with the callee's own use of its parameters
+        callee = cls.methods[d[5:]]
+        from ..terms import bind_arg
+        for pname in callee.named_params[1:]:
+            arg = bind_arg(callee, c, pname)
+            if arg is None:
+                continue
+            r = tb.roles(tb.term(arg, n))
+            want = _param_role(repo, callee, pname)
+            if want and len(r) == 1:
+                ck.ob("C08.7", learn, c, r == {want}, f"{cls.name}: the argument bound to `{pname}` of {d[5:]}() carries the `{want}` field of the batch",
+                      detail=f"carries {sorted(r)}", construct=f"{short(c, 60)} :: {pname}")
+
+
+def _param_role(repo: Repo, callee: Fn, pname: str) -> Optional[str]:
+    """Role a helper's parameter plays, decided by majority over all call sites in the class (Engler-style)."""
+    cls = callee.cls
+    votes: Dict[str, int] = {}
+    from ..terms import bind_arg
+    for m in cls.methods.values():
+        if m is callee:
+            continue
+        tb = None
+        for c in calls_in(m.node):
+            if call_name(c) == f"self.{callee.name}":
+                tb = tb or TermBuilder(repo, m)
+                n = tb.cfg.node_of(c)
+                arg = bind_arg(callee, c, pname)
+                if arg is None or n is None:
+                    continue
+                r = tb.roles(tb.term(arg, n))
+                if len(r) == 1:
+                    k = next(iter(r))
+                    votes[k] = votes.get(k, 0) + 1
+    if not votes:
+        return None
+    best = max(votes.items(), key=lambda kv: kv[1])
+    total = sum(votes.values())
+    return best[0] if best[1] * 2 > total or total == 1 else None
+
+
+# ------------------------------------------------------------------------------------------------ C08.6 (hook)
+def _hook_reinstalls(ck: Check, repo: Repo, reg: AlgoRegistry) -> None:
+    cls = reg.cls
+    for m in cls.methods.values():
+        tms = [c for c in calls_in(m.node) if last_attr(c) == "to_module" and c.args and dotted(c.args[0]).startswith("self.") and dotted(c.args[0])[5:] in reg.shared_attrs()]
+        if not tms:
+            continue
+        cfg = CFG(m.node)
+        for c in tms:
+            n = cfg.node_of(c)
+            ok = n is not None and cfg.postdominates(n, cfg.entry)
+            ck.ob("C08.6", m, c, ok,
+                  f"{cls.name}.{m.name}: on every path the target tensors are (re)installed into `{dotted(c.args[0])[5:]}` — the hook runs after clone, "
+                  "load and mutation have replaced that module",
+                  detail="a path returns without to_module(): the soft update then writes into tensors the (new) target module does not use")
+            # the holder attribute must be bound to the TensorDict that was installed, on every path
+            td = dotted(c.func.value)
+            holders = [x for x in cfg.live_nodes() if x.kind == "stmt" and isinstance(x.ast, ast.Assign) and isinstance(x.ast.value, ast.Name)
+                       and x.ast.value.id == td and dotted(x.ast.targets[0]).startswith("self.")]
+            ck.ob("C08.6", m, c, bool(holders) and all(cfg.postdominates(h, cfg.entry) or _in_finally(m, h) for h in holders),
+                  f"{cls.name}.{m.name}: the installed TensorDict is kept on the agent (for the soft update) on every path")
+
+
+def _in_finally(fn: Fn, node) -> bool:
+    for t in ast.walk(fn.node):
+        if isinstance(t, ast.Try):
+            for s in t.finalbody:
+                if any(x is node.ast for x in ast.walk(s)):
+                    return True
+    return False
